@@ -32,14 +32,14 @@ ReplaceVarIn(bs, n, old, new) == [b \in 1..Len(bs) |-> [bs[b] EXCEPT !.entries =
 
 OtherComp(c) == IF c = "A" THEN "B" ELSE IF c = "B" THEN "A" ELSE "Z"
 AssignNamesOf(m) == m.aN
-FaultKinds == {"dup-identical", "dup-diff-samedeps", "dup-diff-deps", "dup-other-comp-diff", "dup-other-comp-identical",
+FaultKinds == {"dup-identical", "dup-diff-samedeps", "dup-regrouped", "dup-diff-deps", "dup-other-comp-diff", "dup-other-comp-identical",
                "clash-state-param-equal", "clash-state-param-unequal", "clash-param-inter", "clash-state-inter",
                "dup-state-diff", "dup-param-diff", "dup-state-identical",
                "missing-derivative", "orphan-derivative", "misplaced-derivative",
                "undefined-symbol", "cycle-1", "cycle-2", "undefined-in-param-value"}
 \* sites: an assignment name (or a state / parameter name)
 Sites(k) ==
-  CASE k \in {"dup-identical", "dup-diff-samedeps", "dup-diff-deps", "dup-other-comp-diff", "dup-other-comp-identical",
+  CASE k \in {"dup-identical", "dup-diff-samedeps", "dup-regrouped", "dup-diff-deps", "dup-other-comp-diff", "dup-other-comp-identical",
               "undefined-symbol", "cycle-1"} -> mi.aN
     [] k \in {"missing-derivative", "misplaced-derivative"} -> mi.dN
     [] k \in {"clash-state-param-equal", "clash-state-param-unequal", "clash-state-inter", "dup-state-diff", "dup-state-identical"} -> mi.sN
@@ -52,6 +52,9 @@ Apply(bs, k, n) ==
       e == IF n \in DOMAIN mi.ex THEN mi.ex[n] ELSE One IN
   CASE k = "dup-identical"       -> AddEntry(bs, "expressions", c, Entry(n, e))
     [] k = "dup-diff-samedeps"   -> AddEntry(bs, "expressions", c, Entry(n, Bn("add", e, N("1"))))
+    \* the same token sequence up to parentheses, another tree and another value:  e - 1 - 2  versus  e - (1 - 2)
+    [] k = "dup-regrouped"       -> AddEntry(ReplaceExpr(bs, n, Bn("sub", Bn("sub", e, N("1")), N("2"))), "expressions", c,
+                                             Entry(n, Bn("sub", e, Bn("sub", N("1"), N("2")))))
     [] k = "dup-diff-deps"       -> AddEntry(bs, "expressions", c, Entry(n, Bn("add", e, Var("t"))))
     [] k = "dup-other-comp-diff" -> AddEntry(bs, "expressions", OtherComp(c), Entry(n, Bn("mul", e, N("2"))))
     [] k = "dup-other-comp-identical" -> AddEntry(bs, "expressions", OtherComp(c), Entry(n, e))
